@@ -557,7 +557,7 @@ impl ErasedNode for Node {
             unnecessary (not a parent), nobody compared the projections: the flag left over
             from earlier says nothing about those changes, so assume the projection changed. */
             if let Some(Kind::MapRef(mapref)) = self.kind() {
-                mapref.did_change.set(true);
+                mapref.missed_changes.set(true);
             }
             state.recompute_heap.insert(self.packed());
         }
@@ -646,9 +646,14 @@ impl ErasedNode for Node {
             Kind::MapRef(mapref) => {
                 // don't run child_changed on our parents, because we already did that in OUR child_changed.
                 self.value_opt.replace(None);
-                // consume the flag: it describes the changes since the previous recompute
-                let did_change = mapref.did_change.replace(false);
-                self.maybe_change_value_manual(None, did_change, false, state)
+                // consume the flags: they describe the changes since the previous recompute
+                let missed = mapref.missed_changes.replace(false);
+                let did_change = mapref.did_change.replace(false) || missed;
+                /* Normally our parents have already been told by the [child_changed] call that
+                reached us. If we missed changes, that call never happened (or compared against
+                an input value that is not the one we last projected), so tell them now, without
+                an old value: parents that are MapRefs then assume a change as well. */
+                self.maybe_change_value_manual(None, did_change, missed, state)
             }
             Kind::MapWithOld(map) => {
                 let input = map.input.value_as_any().unwrap();
